@@ -236,10 +236,21 @@ func c09Vals(r *rng.R, n int, homogeneous int) []any {
 			vals[i] = c05Strs[r.Intn(len(c05Strs))]
 		case 3:
 			vals[i] = float64(r.Range(-8, 8)) / 2
+		case 4: // rows: lists with several elements, not in order
+			switch r.Intn(4) {
+			case 0:
+				vals[i] = at.NewList(3, 1, 2)
+			case 1:
+				vals[i] = at.NewList("b", "a", "c")
+			case 2:
+				vals[i] = at.NewList(2.5, -1.5)
+			default:
+				vals[i] = at.NewList()
+			}
 		default:
 			switch r.Intn(8) {
 			case 0:
-				vals[i] = at.NewList(r.Intn(3))
+				vals[i] = at.NewList(r.Intn(3), r.Intn(3)-2)
 			case 1:
 				vals[i] = at.NewObject("k", r.Intn(3))
 			case 2:
@@ -629,6 +640,12 @@ func mutateParty(r *rng.R, p *party) (desc string) {
 				if ok {
 					x.Sort()
 					desc = "Sort()"
+				} else if k != at.TypeInt && k != at.TypeString && k != at.TypeFloat && r.Bool() {
+					// outside Sort's domain (first element of another kind): rejected, and whatever it does it has no business
+					// inside the nested containers the parties share
+					drive.Protect(func() { x.Sort() })
+					desc = "Sort() [first element of another kind: rejected]"
+					// (the rejected call leaves this party alone as well: the caller compares every party)
 				} else {
 					x.Add(1)
 					desc = "Add(1)"
@@ -755,7 +772,7 @@ func c09Case(c *fw.Ctx, r *rng.R, forceOp int, pinned bool) {
 		}
 		if isList {
 			n := []int{0, 1, 2, 3, 5, 8, r.Range(0, 12), r.Range(0, 12), 33, 64, 100}[r.Intn(11)]
-			vals := c09Vals(r, n, []int{0, 0, 1, 2, 3}[r.Intn(5)])
+			vals := c09Vals(r, n, []int{0, 0, 1, 2, 3, 0, 0, 1, 2, 4}[r.Intn(10)])
 			recv, how := buildReceiverList(r, vals)
 			if pinned {
 				recv = at.NewList(vals...)
@@ -833,6 +850,9 @@ func c09Case(c *fw.Ctx, r *rng.R, forceOp int, pinned bool) {
 				both := at.NewList("held by both")
 				recv.Set("shared-obj", at.NewObject("only-recv", 1, "both", at.NewList(1), "deep", at.NewObject("r", 1)), "shared-list", at.NewList(1, 2), "same", both, "kind", at.NewList())
 				arg.Set("shared-obj", at.NewObject("only-arg", 2, "both", at.NewList(2), "deep", at.NewObject("a", 2)), "shared-list", at.NewList(3), "same", both, "kind", at.NewObject(), "extra", 1)
+				// nil on one side of a shared key, and on both
+				recv.Set("nil-in-arg", 5, "nil-in-recv", nil, "nil-in-both", nil, "nil-in-arg-container", at.NewList(1))
+				arg.Set("nil-in-arg", nil, "nil-in-recv", 6, "nil-in-both", nil, "nil-in-arg-container", nil)
 				c.Count("related_arguments")
 			}
 			s.trace = append(s.trace, fmt.Sprintf("recv = %s; arg = %s", spec.Trunc(recv.String(), 200), spec.Trunc(arg.String(), 100)))
@@ -874,7 +894,11 @@ func c09Case(c *fw.Ctx, r *rng.R, forceOp int, pinned bool) {
 			}
 			s.trace = append(s.trace, p.name+"."+desc)
 			c.Count("mutations")
-			s.verify(p, "storage-shared-between-parties", p.name+"."+desc)
+			changed := p
+			if strings.HasSuffix(desc, "rejected]") {
+				changed = nil
+			}
+			s.verify(changed, "storage-shared-between-parties", p.name+"."+desc)
 		}
 		// derive once more after all the mutations: results must describe the receiver as it is now, not what an earlier
 		// (since modified) result looked like
